@@ -49,11 +49,30 @@ import (
 // ---------------------------------------------------------------------------------------------
 // case space (identical in parent and children: deterministic)
 
-type space struct {
-	sp      *pktgen.Space
-	cases   []pktgen.Case
-	refused map[string]string // base -> API error (whole base dropped)
+// item is one enumerated packet shape.
+type item struct {
+	label string
+	d     pktgen.Desc
+	depth int  // number of deviations
+	sweep bool // outer-length boundary sweep case: built repeatedly, no tampering
 }
+
+type space struct {
+	cases   []item
+	refused map[string]string // base -> API error (whole base dropped)
+	primary []string
+}
+
+// primaryModes get every deviation in the quick tier; the other signer modes differ from them only
+// in SignatureInfo fields or key size and get the base shapes plus the payload-size deviations
+// (all deviations in the thorough tier).
+var primaryModes = map[string]bool{
+	"D+sha256": true, "D+hmac": true, "D+ecdsa-p256": true, "D+rsa2048": true,
+	"I+sha256-int": true, "I+hmac-int": true, "I+ecdsa-p256-int": true, "I+rsa1024-int": true,
+}
+
+var allDims = []string{"ncomp", "c0.typ", "c0.len", "cL.typ", "cL.len", "name.shape", "pay.size", "pay.split", "signer",
+	"cbp", "mbf", "hint", "nonce", "life", "hop", "ctype", "fresh", "final"}
 
 func buildSpace(thorough bool) *space {
 	two := []pktgen.Comp{{Typ: 8, Len: 1}, {Typ: 8, Len: 2}}
@@ -67,37 +86,71 @@ func buildSpace(thorough bool) *space {
 			d1 = b.Desc
 		}
 	}
-	var bases []pktgen.Base
+	var prim, sec []pktgen.Base
 	refused := map[string]string{}
-	try := func(name string, d pktgen.Desc) {
+	try := func(name string, d pktgen.Desc, primary bool) {
 		b := pktgen.Build(&d)
 		if b.Err != nil {
 			refused[name] = b.Err.Error()
 			return
 		}
-		bases = append(bases, pktgen.Base{Name: name, Desc: d})
+		if primary || thorough {
+			prim = append(prim, pktgen.Base{Name: name, Desc: d})
+		} else {
+			sec = append(sec, pktgen.Base{Name: name, Desc: d})
+		}
 	}
 	// unsigned Interests with parameters (digest only)
-	try("I1-unsigned-params", i1)
-	try("I3-unsigned-params-min", pktgen.Desc{Interest: true, Name: two, PaySize: 3, Signer: -1})
+	try("I1-unsigned-params", i1, true)
+	try("I3-unsigned-params-min", pktgen.Desc{Interest: true, Name: two, PaySize: 3, Signer: -1}, true)
 	for si, s := range pktgen.Signers() {
 		di := i1
 		di.Signer = si
-		try("I1+"+s.Name, di)
-		try("I2+"+s.Name, pktgen.Desc{Interest: true, Name: two, PaySize: 3, Signer: si})
-		try("D0+"+s.Name, pktgen.Desc{Name: two, PaySize: -1, Signer: si})
+		try("I1+"+s.Name, di, primaryModes["I+"+s.Name])
+		try("I2+"+s.Name, pktgen.Desc{Interest: true, Name: two, PaySize: 3, Signer: si}, primaryModes["I+"+s.Name])
+		try("D0+"+s.Name, pktgen.Desc{Name: two, PaySize: -1, Signer: si}, primaryModes["D+"+s.Name])
 		dd := d1
 		dd.Signer = si
-		try("D1+"+s.Name, dd)
+		try("D1+"+s.Name, dd, primaryModes["D+"+s.Name])
 	}
 	k := 1
 	if thorough {
 		k = 2
 	}
-	sp := pktgen.Enumerate(bases, k, "signer")
-	cs := sp.Cases
-	sort.SliceStable(cs, func(i, j int) bool { return len(cs[i].Devs) < len(cs[j].Devs) })
-	return &space{sp: sp, cases: cs, refused: refused}
+	sp := &space{refused: refused}
+	for m := range primaryModes {
+		sp.primary = append(sp.primary, m)
+	}
+	sort.Strings(sp.primary)
+	add := func(ps *pktgen.Space) {
+		for _, c := range ps.Cases {
+			if d, ok := ps.Desc(c); ok {
+				sp.cases = append(sp.cases, item{label: ps.Label(c), d: d, depth: len(c.Devs)})
+			}
+		}
+	}
+	add(pktgen.Enumerate(prim, k, "signer"))
+	if len(sec) > 0 {
+		var skip []string
+		for _, dm := range allDims {
+			if dm != "pay.size" {
+				skip = append(skip, dm)
+			}
+		}
+		add(pktgen.Enumerate(sec, 1, skip...))
+	}
+	sort.SliceStable(sp.cases, func(i, j int) bool { return sp.cases[i].depth < sp.cases[j].depth })
+	// outer-length boundary sweep: the four signed base shapes x every ECDSA mode x payload sizes
+	// that put the estimated outer length on 250..258 and 65533..65540; first in the list
+	sw := pktgen.Sweep([]pktgen.Base{
+		{Name: "I1", Desc: i1}, {Name: "I2", Desc: pktgen.Desc{Interest: true, Name: two, PaySize: 3, Signer: -1}},
+		{Name: "D0", Desc: pktgen.Desc{Name: two, PaySize: -1, Signer: -1}}, {Name: "D1", Desc: d1}})
+	var sweep []item
+	for _, c := range sw {
+		sweep = append(sweep, item{label: c.Label, d: c.Desc, depth: 1, sweep: true})
+	}
+	sp.cases = append(sweep, sp.cases...)
+	return sp
 }
 
 // ---------------------------------------------------------------------------------------------
@@ -144,6 +197,7 @@ type caseCtx struct {
 	replay map[string]any
 	// the independent walker rejected the packet inside a name component
 	malformedName bool
+	held          *heldPacket
 }
 
 var collapsedKey = "signed packet with a name component value of 253+ bytes does not decode (see C03)"
@@ -164,6 +218,12 @@ func (c *caseCtx) viol(clause, key, detail string, extra map[string]any) {
 		rp[k] = v
 	}
 	emit(msg{T: "viol", I: c.idx, Clause: clause, Key: key, Detail: c.d.String() + ": " + detail, Replay: rp})
+}
+
+// violRaw reports a violation about ANOTHER packet than the current case (delayed verification).
+func (c *caseCtx) violRaw(clause, key, detail string, replay map[string]any) {
+	replay["case_index"] = c.idx
+	emit(msg{T: "viol", I: c.idx, Clause: clause, Key: key, Detail: detail, Replay: replay})
 }
 
 func (c *caseCtx) note(set, v string) {
@@ -322,13 +382,65 @@ func where(root *pktgen.Node, p int) string {
 	return path + " value"
 }
 
-func evalCase(s *space, idx int, startBit int, careful bool, thorough bool, deadline time.Time) {
-	c := s.cases[idx]
-	d, ok := s.sp.Desc(c)
-	if !ok {
+// pool: one signer object per mode for the life of this worker, like an application that keeps its
+// signer. prevBuilt: the last packet each signer object signed, kept as the un-joined Wire the API
+// returned; it is joined, decoded and validated only after the same object signed the next packet.
+var (
+	pool      = pktgen.NewSignerPool()
+	prevBuilt = map[int]*heldPacket{}
+)
+
+type heldPacket struct {
+	b       *pktgen.Built
+	label   string
+	validOK bool // the validator accepted it right after it was built
+}
+
+func delayedVerify(cc *caseCtx, cur *pktgen.Built) {
+	if cur.Err != nil || cur.Rec == nil || !cur.Rec.Asked {
 		return
 	}
-	cc := &caseCtx{idx: idx, label: s.sp.Label(c), d: &d, stat: map[string]int64{}, sets: map[string]map[string]bool{}}
+	si := cur.Desc.Signer
+	prev := prevBuilt[si]
+	cc.held = &heldPacket{b: cur, label: cc.label}
+	prevBuilt[si] = cc.held
+	if prev == nil {
+		return
+	}
+	cc.stat["delayed_verifications"]++
+	pb := prev.b
+	late := append([]byte(nil), pb.Wire.Join()...)
+	extra := map[string]any{"case": prev.label, "desc": pb.Desc.String(), "next_case": cc.label, "bytes": hexCap(pb.Bytes)}
+	mode := pb.SignerSp.Name
+	if !bytes.Equal(late, pb.Bytes) {
+		cc.violRaw("C12.cover", "bytes of an earlier Encoded"+kind(pb.Desc)+".Wire change when the same signer object signs the next packet ("+pb.SignerSp.Family+")",
+			fmt.Sprintf("%s signed by one %s signer object, then %s signed by the same object: the first packet's un-joined Wire now joins to different bytes", prev.label, mode, cc.label), extra)
+	}
+	if !prev.validOK {
+		return // it did not decode/verify even before the next packet was signed: reported by its own case
+	}
+	o := decode(pb.Desc.Interest, enc.NewBufferReader(late))
+	cc.stat["decodes"]++
+	switch {
+	case !o.ok:
+		cc.violRaw("C12.cover", "an earlier packet no longer decodes after the same signer object signed the next packet ("+pb.SignerSp.Family+")", prev.label+" then "+cc.label+": "+o.msg, extra)
+	case !bytes.Equal(o.cov.Join(), pb.Rec.Covered):
+		cc.violRaw("C12.cover", "an earlier packet's signed portion differs from what its signer was handed once the same signer object signed the next packet ("+pb.SignerSp.Family+")", prev.label+" then "+cc.label, extra)
+	case pb.SignerSp.Validate != nil && !validate(pb.SignerSp, o):
+		cc.violRaw("C12.accept", "an earlier packet no longer verifies after the same signer object signed the next packet ("+pb.SignerSp.Family+" signer, "+pb.SignerSp.Family+" validator)",
+			fmt.Sprintf("%s signed by one %s signer object, then %s by the same object: the validator now rejects the first, untampered packet", prev.label, mode, cc.label), extra)
+	}
+}
+
+func evalCase(s *space, idx int, startBit int, careful bool, thorough bool, deadline time.Time) {
+	it := s.cases[idx]
+	if it.sweep {
+		evalSweep(s, idx)
+		return
+	}
+	d := it.d
+	c := struct{ Devs []int }{make([]int, it.depth)}
+	cc := &caseCtx{idx: idx, label: it.label, d: &d, stat: map[string]int64{}, sets: map[string]map[string]bool{}}
 	cc.replay = map[string]any{"case": cc.label, "desc": d.String(), "case_index": idx}
 	defer func() {
 		sets := map[string][]string{}
@@ -341,12 +453,13 @@ func evalCase(s *space, idx int, startBit int, careful bool, thorough bool, dead
 	}()
 	cc.stat["cases"]++
 	cc.stat[fmt.Sprintf("cases_%ddev", len(c.Devs))]++
-	b := pktgen.Build(&d)
+	b := pktgen.BuildWith(&d, pool)
 	cc.b = b
 	if b.Panic != "" {
 		cc.viol("C12.cover", "packet API panics: "+b.Panic, "build panicked", nil)
 		return
 	}
+	delayedVerify(cc, b)
 	if b.Err != nil {
 		cc.stat["api_refused"]++
 		cc.note("api_refused", kind(&d)+": "+errClass(b.Err))
@@ -392,6 +505,9 @@ func evalCase(s *space, idx int, startBit int, careful bool, thorough bool, dead
 			cc.stat["tamper_skipped_validator_rejects_original"]++
 		} else {
 			cc.stat["accepted_untampered"]++
+			if cc.held != nil {
+				cc.held.validOK = true
+			}
 		}
 	}
 
@@ -569,6 +685,13 @@ func evalCase(s *space, idx int, startBit int, careful bool, thorough bool, dead
 	}
 	slow := b.SignerSp != nil && b.SignerSp.Slow
 	buf := append([]byte(nil), B...)
+	tamperCuts := []int{n / 2}
+	if d.Interest && lay.param != nil {
+		tamperCuts = append(tamperCuts, lay.param.Start)
+	} else if lay.sigInfo != nil {
+		tamperCuts = append(tamperCuts, lay.sigInfo.Start)
+	}
+	segOnly := ""
 	bitNo := -1
 	for oi, p := range offs {
 		bits := []int{0, 1, 2, 3, 4, 5, 6, 7}
@@ -584,6 +707,7 @@ func evalCase(s *space, idx int, startBit int, careful bool, thorough bool, dead
 		}
 		for _, bit := range bits {
 			bitNo++
+			segOnly = ""
 			if bitNo < startBit {
 				continue
 			}
@@ -595,25 +719,64 @@ func evalCase(s *space, idx int, startBit int, careful bool, thorough bool, dead
 				syscall.Kill(os.Getpid(), syscall.SIGKILL) // C12_SELFTEST_KILL: exercises the restart logic
 			}
 			buf[p] ^= 1 << bit
-			o := decode(d.Interest, enc.NewBufferReader(buf))
-			cc.stat["decodes"]++
+			// every flipped packet is decoded three ways: contiguous, and through a WireReader
+			// for each cut in tamperCuts (middle of the packet; right before the
+			// ApplicationParameters / SignatureInfo element). Accepted by ANY path = accepted.
 			cc.stat["bit_flips"]++
-			verdict := ""
-			switch {
-			case !o.ok && strings.HasPrefix(o.msg, "panic"):
-				cc.stat["flips_rejected_by_decoder_panic"]++
-				cc.note("decoder_panics_on_flipped_packets", o.msg)
-			case !o.ok:
-				cc.stat["flips_rejected_by_decoder"]++
-			case hasValidator:
-				cc.stat["validations"]++
-				if validate(b.SignerSp, o) {
-					verdict = "decodes and the " + b.SignerSp.Family + " validator accepts"
+			verdict, rejectedBy := "", ""
+			var first dec
+			firstVerdict, haveFirst := false, false
+			for pi := -1; pi < len(tamperCuts) && verdict == ""; pi++ {
+				var o dec
+				path := "contiguous bytes"
+				if pi < 0 {
+					o = decode(d.Interest, enc.NewBufferReader(buf))
 				} else {
-					cc.stat["flips_rejected_by_validator"]++
+					o = decode(d.Interest, enc.NewWireReader(segs(buf, tamperCuts[pi])))
+					path = fmt.Sprintf("2 segments cut at %d", tamperCuts[pi])
 				}
+				cc.stat["decodes"]++
+				switch {
+				case !o.ok && strings.HasPrefix(o.msg, "panic"):
+					if rejectedBy == "" {
+						rejectedBy = "panic"
+					}
+					cc.note("decoder_panics_on_flipped_packets", o.msg)
+				case !o.ok:
+					if rejectedBy == "" {
+						rejectedBy = "decoder"
+					}
+				case hasValidator:
+					// the shipped validators are functions of (covered bytes, signature type,
+					// signature value): an identical triple is not verified twice
+					var ok bool
+					if haveFirst && o.sig.SigType() == first.sig.SigType() && bytes.Equal(o.sig.SigValue(), first.sig.SigValue()) && bytes.Equal(o.cov.Join(), first.cov.Join()) {
+						ok = firstVerdict
+					} else {
+						cc.stat["validations"]++
+						ok = validate(b.SignerSp, o)
+						first, firstVerdict, haveFirst = o, ok, true
+					}
+					if ok {
+						verdict = "decodes from " + path + " and the " + b.SignerSp.Family + " validator accepts"
+					} else if rejectedBy == "" || pi < 0 {
+						rejectedBy = "validator"
+					}
+				default:
+					verdict = "decodes from " + path + " (parameters digest check passes)"
+				}
+				if verdict != "" && pi >= 0 {
+					segOnly = " when decoded from segments"
+				}
+			}
+			switch {
+			case verdict != "":
+			case rejectedBy == "panic":
+				cc.stat["flips_rejected_by_decoder_panic"]++
+			case rejectedBy == "decoder":
+				cc.stat["flips_rejected_by_decoder"]++
 			default:
-				verdict = "decodes (parameters digest check passes)"
+				cc.stat["flips_rejected_by_validator"]++
 			}
 			buf[p] ^= 1 << bit
 			if verdict != "" {
@@ -625,7 +788,10 @@ func evalCase(s *space, idx int, startBit int, careful bool, thorough bool, dead
 				if hasValidator {
 					sg = b.SignerSp.Family + "-signed"
 				}
-				cc.viol(clause, fmt.Sprintf("%s %s: single-bit flip in %s (%s) is accepted", sg, kind(&d), labelOf[p], where(root, p)),
+				if clause == "C12.digest" {
+					sg = "any" // the digest check does not depend on the signer
+				}
+				cc.viol(clause, fmt.Sprintf("%s %s: single-bit flip in %s (%s) is accepted%s", sg, kind(&d), labelOf[p], where(root, p), segOnly),
 					fmt.Sprintf("%s: flipping bit %d of byte %d (%#02x -> %#02x): %s", fam, bit, p, B[p], B[p]^(1<<bit), verdict),
 					map[string]any{"byte": p, "bit": bit})
 			}
@@ -633,6 +799,72 @@ func evalCase(s *space, idx int, startBit int, careful bool, thorough bool, dead
 	}
 	emit(msg{T: "sample", S: fmt.Sprintf("%s => %d bytes, %s; covered bytes agree (encoder, signer, parser, segmentations); %d single-bit flips all rejected=%v",
 		cc.label, n, fam, cc.stat["bit_flips"], cc.stat["bit_flips"] == cc.stat["flips_rejected_by_decoder"]+cc.stat["flips_rejected_by_validator"]+cc.stat["flips_rejected_by_decoder_panic"])})
+}
+
+// evalSweep: one case of the outer-length boundary sweep. The packet is built and signed until
+// three different signature lengths were seen or sweepTries builds were made (ECDSA signature
+// lengths vary run to run); every build must decode, cover the signed bytes and verify.
+const sweepTries = 24
+
+func evalSweep(s *space, idx int) {
+	it := s.cases[idx]
+	d := it.d
+	cc := &caseCtx{idx: idx, label: it.label, d: &d, stat: map[string]int64{}, sets: map[string]map[string]bool{}}
+	defer func() { emit(msg{T: "stat", I: idx, Stat: cc.stat}) }()
+	cc.stat["sweep_cases"]++
+	seen := map[int]bool{}
+	crossed := false
+	for try := 0; try < sweepTries && len(seen) < 3; try++ {
+		b := pktgen.BuildWith(&d, pool)
+		cc.b = b
+		cc.replay = map[string]any{"case": cc.label, "desc": d.String(), "case_index": idx}
+		if b.Err != nil || b.Panic != "" {
+			return
+		}
+		delayedVerify(cc, b)
+		cc.replay["bytes"] = hexCap(b.Bytes)
+		cc.stat["sweep_builds"]++
+		_, est, shrink, crosses := b.OuterLengths()
+		seen[shrink] = true
+		if crosses {
+			crossed = true
+			if est < 65536 {
+				cc.stat["sweep_builds_length_field_shrank_3_to_1_bytes"]++
+			} else {
+				cc.stat["sweep_builds_length_field_shrank_5_to_3_bytes"]++
+			}
+		}
+		pre := ""
+		if crosses {
+			pre = "signed packet whose outer length field gets shorter after signing (signature shorter than the signer's estimate) "
+		}
+		o := decode(d.Interest, enc.NewBufferReader(b.Bytes))
+		cc.stat["decodes"]++
+		switch {
+		case !o.ok && crosses:
+			cc.viol("C12.cover", pre+"does not decode", fmt.Sprintf("%s: estimate %d, actual signature %d bytes: %s", b.SignerSp.Name, b.Rec.Inner.EstimateSize(), len(b.Rec.SigVal), o.msg), nil)
+		case !o.ok:
+			cc.viol("C12.cover", kind(&d)+" ("+b.SignerSp.Name+") does not decode: "+o.msg, o.msg, nil)
+		case !bytes.Equal(o.cov.Join(), b.Rec.Covered) || !bytes.Equal(b.SigCov.Join(), b.Rec.Covered):
+			cc.viol("C12.cover", pre+kind(&d)+": SigCovered (encoder or parser) differs from the bytes handed to the signer", b.SignerSp.Name, nil)
+		default:
+			cc.stat["validations"]++
+			if validate(b.SignerSp, o) {
+				if cc.held != nil {
+					cc.held.validOK = true
+				}
+			} else {
+				key := "matching validator rejects an untampered packet (" + b.SignerSp.Family + " signer, " + b.SignerSp.Family + " validator)"
+				if crosses {
+					key = pre + "is rejected by the matching validator (" + b.SignerSp.Family + ")"
+				}
+				cc.viol("C12.accept", key, b.SignerSp.Name, nil)
+			}
+		}
+	}
+	if crossed {
+		cc.stat["sweep_cases_with_a_shrinking_length_field"]++
+	}
 }
 
 func childMain() {
@@ -661,10 +893,12 @@ func childMain() {
 	s := buildSpace(thorough)
 	capped := false
 	if only := os.Getenv("C12_ONLY"); only != "" { // --replay: one case, named by its label
-		for idx, c := range s.cases {
-			if s.sp.Label(c) == only {
-				emit(msg{T: "case", I: idx})
-				evalCase(s, idx, 0, false, thorough, deadline)
+		for _, want := range []string{only, os.Getenv("C12_ONLY_NEXT")} {
+			for idx, c := range s.cases {
+				if want != "" && c.label == want {
+					emit(msg{T: "case", I: idx})
+					evalCase(s, idx, 0, false, thorough, deadline)
+				}
 			}
 		}
 		emit(msg{T: "done"})
@@ -699,12 +933,14 @@ func replayMain(file string) {
 		Clause, Key string
 		Replay      struct {
 			Case string `json:"case"`
+			Next string `json:"next_case"`
 		} `json:"replay"`
 	}
 	if json.Unmarshal(raw, &r) != nil || r.Replay.Case == "" {
 		report.Fatal("replay %s: no case label", file)
 	}
-	cmd := exec.Command("bash", "-c", `ulimit -v 2000000; exec "$0"`, os.Args[0])
+	os.Setenv("C12_ONLY_NEXT", r.Replay.Next)
+	cmd := exec.Command("bash", "-c", `ulimit -v 3000000; exec "$0"`, os.Args[0])
 	cmd.Env = append(os.Environ(), "C12_WORKER=0/1", "C12_ONLY="+r.Replay.Case, "C12_DEADLINE=9999999999")
 	outb, _ := cmd.Output()
 	again, seen := false, map[string]bool{}
@@ -781,9 +1017,9 @@ func main() {
 		resume, careful := "", ""
 		restarts := 0
 		for {
-			cmd := exec.Command("bash", "-c", `ulimit -v 2000000; exec "$0"`, os.Args[0])
+			cmd := exec.Command("bash", "-c", `ulimit -v 3000000; exec "$0"`, os.Args[0])
 			cmd.Env = append(os.Environ(), fmt.Sprintf("C12_WORKER=%d/%d", shard, W), "C12_RESUME="+resume, "C12_CAREFUL="+careful,
-				fmt.Sprintf("C12_DEADLINE=%d", deadline.Unix()), "GOMAXPROCS=2")
+				fmt.Sprintf("C12_DEADLINE=%d", deadline.Unix()), "GOMAXPROCS=1", "GOGC=300", "GOMEMLIMIT=600MiB") // single-threaded workers; decoding allocates a lot of short-lived garbage
 			var stderr bytes.Buffer
 			cmd.Stderr = &stderr
 			pipe, err := cmd.StdoutPipe()
@@ -866,7 +1102,7 @@ func main() {
 			mu.Lock()
 			nDeaths++
 			if len(deaths) < 12 {
-				deaths = append(deaths, death{s.sp.Label(s.cases[cur]), lastBit, how})
+				deaths = append(deaths, death{s.cases[cur].label, lastBit, how})
 			}
 			mu.Unlock()
 			resume = fmt.Sprintf("%d:%d", cur, lastBit+1)
@@ -914,9 +1150,13 @@ func main() {
 		"tamper_worker_deaths":                             nDeaths,
 		"tamper_worker_death_examples":                     deaths,
 		"bounds": map[string]any{
-			"shapes":       "bases {Interest all-optional-fields, Interest minimal+parameters, Data plain, Data all-MetaInfo+content} x every signer mode, plus two unsigned Interests with parameters; every <=1 deviation (thorough: <=2) of the C03 generator except the signer dimension",
-			"segmentation": "C12.cover: every 1-cut (packets >1200 B: cuts within 2 bytes of element offsets), every 2-cut for packets <=100 B (thorough, <=1 deviation: <=400 B) else all pairs of element offsets, every 3-cut for packets <=56 B (thorough, <=1 deviation: <=112 B) else outer-header-end + every pair of element offsets",
-			"tamper":       "every bit of the signed portion, SignatureValue element, ApplicationParameters element and digest component when these total <=700 bytes; above: every bit of the bytes within 4 of an element boundary and one bit of every 251st (thorough, sha256/hmac/unsigned: 7th) other byte; P-521 (verification ~1 ms): quick tier base shapes only with bits 0 and 7 of every byte, thorough tier <=1-deviation shapes with every bit",
+			"shapes":               "bases {Interest all-optional-fields, Interest minimal+parameters, Data plain, Data all-MetaInfo+content} x every signer mode, plus two unsigned Interests with parameters; quick tier: every <=1 deviation of the C03 generator (signer dimension excluded; name shapes with 4-8 zero-length components, present-but-empty parameters included) for the primary modes and the unsigned Interests, base shape + payload-size deviations for the other modes; thorough tier: every <=2 deviations for every mode",
+			"primary_modes":        s.primary,
+			"outer_length_sweep":   "4 base shapes x every ECDSA mode x payload sizes putting the ESTIMATED outer length on 250..258 and 65533..65540; each case built until 3 different signature lengths were seen or 24 builds; cover+accept on every build (counters sweep_*)",
+			"delayed_verification": "each worker keeps ONE signer object per mode; the un-joined Wire of the previous packet a signer object signed is joined, decoded, compared with what the signer was handed and validated only after the same object signed the next packet",
+			"segmentation":         "C12.cover: every 1-cut (packets >1200 B: cuts within 2 bytes of element offsets), every 2-cut for packets <=100 B (thorough, <=1 deviation: <=400 B) else all pairs of element offsets, every 3-cut for packets <=56 B (thorough, <=1 deviation: <=112 B) else outer-header-end + every pair of element offsets",
+			"tamper_decode_paths":  "every flipped packet is decoded from contiguous bytes and from 2 segments cut (a) in the middle and (b) right before the ApplicationParameters (Interest) / SignatureInfo (Data) element; accepted by any path counts as accepted",
+			"tamper":               "every bit of the signed portion, SignatureValue element, ApplicationParameters element and digest component when these total <=700 bytes; above: every bit of the bytes within 4 of an element boundary and one bit of every 251st (thorough, sha256/hmac/unsigned: 7th) other byte; P-521 (verification ~1 ms): quick tier base shapes only with bits 0 and 7 of every byte, thorough tier <=1-deviation shapes with every bit",
 		},
 	}
 	if capped {
